@@ -40,6 +40,7 @@ func main() {
 	out := flag.String("out", "", "scratch dir for rewritten files and overlay.json")
 	hook := flag.String("hook", "", "verifhook source")
 	gobin := flag.String("go", "go1.26.8", "go command")
+	modfile := flag.String("modfile", "", "optional -modfile=... flag passed to go list")
 	flag.Parse()
 	if *out == "" || *hook == "" {
 		fmt.Fprintln(os.Stderr, "need -out and -hook")
@@ -48,7 +49,12 @@ func main() {
 	must(os.MkdirAll(*out, 0o755))
 
 	// export data of everything kvass depends on
-	cmd := exec.Command(*gobin, "list", "-export", "-deps", "-f", "{{.ImportPath}}={{.Export}}={{.Dir}}", "tkestack.io/kvass/pkg/...")
+	listArgs := []string{"list"}
+	if *modfile != "" {
+		listArgs = append(listArgs, *modfile)
+	}
+	listArgs = append(listArgs, "-export", "-deps", "-f", "{{.ImportPath}}={{.Export}}={{.Dir}}", "tkestack.io/kvass/pkg/...")
+	cmd := exec.Command(*gobin, listArgs...)
 	cmd.Stderr = os.Stderr
 	data, err := cmd.Output()
 	if err != nil {
